@@ -96,3 +96,21 @@ Theorem C01_redis_keyspace : forall ops, Forall sop_wf ops ->
     h <> ∅ /\ ((exists v6, k = k_group v6) \/ (exists v6 s ih, ih_wf ih /\ k = k_swarm v6 s ih)).
 Proof. exact redis_keyspace. Qed.
 Print Assumptions C01_redis_keyspace.
+
+(* ---- on the wire (Model/Tracker.v): an accepted UDP announce, in ANY state reached by a history of sane
+   operations, leaves the swarm of its infohash and family listing the announcing peer exactly as the announce
+   implies, and leaves the other family's swarms alone *)
+From Chihaya Require Import Model.Tracker Proofs.TrackerP Proofs.FamilyP.
+Theorem C01_udp_announce_membership : forall mac t u ops clock ip packet txid v6a r q,
+  Forall sop_sane ops -> wf_bytes packet = true -> wf_bytes ip = true -> (length ip = 4 \/ length ip = 16)%nat ->
+  UdpParse.handle_udp mac (uc_key u) (uc_skew u) clock (uc_opts u) ip packet = UdpParse.UAnnounce txid v6a r q ->
+  let a := ann_of_areq r in
+  exists sp' d, udp_step spec_if mac t u (run_spec ops) clock ip packet = Some (sp', [d]) /\
+    let sw := swarm_of sp' (a_ih a) (a_v6 a) in
+    (plain_event (a_event a) -> a_left a = 0 -> seeders sw !! a_key a = Some clock) /\
+    (plain_event (a_event a) -> a_left a <> 0 -> leechers sw !! a_key a = Some clock) /\
+    (a_event a = EvCompleted -> seeders sw !! a_key a = Some clock /\ leechers sw !! a_key a = None) /\
+    (a_event a = EvStopped -> seeders sw !! a_key a = None /\ leechers sw !! a_key a = None) /\
+    (forall ih, sp' !! (ih, negb (a_v6 a)) = run_spec ops !! (ih, negb (a_v6 a))).
+Proof. exact udp_announce_membership. Qed.
+Print Assumptions C01_udp_announce_membership.
